@@ -122,7 +122,11 @@ structure State where
   done     : Bool := false           -- cleanup() has returned
   joined   : List Nat := []
   nextTask : Nat := 0
-  loopQ    : List LoopItem := []
+  loopQ    : List LoopItem := []    -- the loop's run-in-loop queue: Loop::runInLoop(), the THREAD-SAFE entry point
+                                    -- (locked, wakes the loop, legal while the loop is not running) — the only one
+                                    -- threadProc uses, for completion callbacks and for its own join
+  nextQ    : List LoopItem := []    -- the loop's run-next queue: Loop::runNext() / Loop::run() outside a running loop:
+                                    -- NOT locked, loop thread only.  No step of this model writes it.
   crashed  : Bool := false           -- nullptr->join() executed / assertion aborted
   peak     : Nat := 0
   -- ghost history
